@@ -17,8 +17,9 @@
    `split x` are counted as the use of x (their mode side conditions are stated in Sequents.v /
    LinearModes below, where the types are known).
 
-   No types occur in this file. *)
-Require Import Grits.Base Grits.Forms.
+   No types occur in the discipline for a body (types appear only in the program-level clause for
+   multi-name declarations at the end of this file). *)
+Require Import Grits.Base Grits.ModeDefs Grits.Modes Grits.STypes Grits.Forms Grits.Subst Grits.Infer.
 
 Definition prov_ref (sh : option string) (n : name) : bool :=
   is_self n || match sh with Some s => String.eqb (ident n) s | None => false end.
@@ -190,7 +191,6 @@ with uninit_brs (b : branches) : bool :=
    process are the declared names (providers of processes, assumed names) that occur free in its
    body, other than its own providers.  A declaration with several provider names duplicates the
    process: its type (after mode inference) must be contractable. *)
-Require Import Grits.ModeDefs Grits.Modes Grits.STypes Grits.Subst Grits.Infer.
 
 Definition declared (p : program) : list string :=
   flat_map (fun pd => map ident (pr_providers pd)) (p_procs p) ++ map ident (p_assumed p).
